@@ -13,6 +13,7 @@ package badger
 //@   requires db != nil ==> db.bdp != nil
 //@   modifies *
 //@   safety_off
+//@   calls_havoc
 //@   ghost txns int = 0
 //@   ghost setKey []byte = nil
 //@   ghost setVal []byte = nil
@@ -36,6 +37,7 @@ package badger
 //@   requires db != nil ==> db.bdp != nil
 //@   modifies *
 //@   safety_off
+//@   calls_havoc
 //@   ghost txns int = 0
 //@   ghost setKey []byte = nil
 //@   ghost delKey []byte = nil
@@ -56,6 +58,7 @@ package badger
 //@ func goBatch.Put
 //@   prop C01 C04
 //@   safety_off
+//@   calls_havoc
 //@   modifies *
 //@   ghost setKey []byte = nil
 //@   ghost delKey []byte = nil
@@ -72,6 +75,7 @@ package badger
 //@ func goBatch.Delete
 //@   prop C01 C04
 //@   safety_off
+//@   calls_havoc
 //@   modifies *
 //@   ghost setKey []byte = nil
 //@   ghost delKey []byte = nil
@@ -93,6 +97,7 @@ package badger
 //@ func BadgerDB.versionedRange
 //@   prop C05
 //@   safety_off
+//@   calls_havoc
 //@   modifies *
 //@   ghost curTK []byte = begTKey
 //@   ghostset at "maxVersionKey, err = vctx.MaxVersionKey(indexBytes)": curTK = indexBytes
@@ -110,6 +115,7 @@ package badger
 //@ func BadgerDB.DeleteRange
 //@   prop C05
 //@   safety_off
+//@   calls_havoc
 //@   modifies *
 //@   ghost pending int = 0
 //@   ghost batches int = 0
